@@ -5,7 +5,7 @@ from .common import tlax
 
 def runconf(max_ver: int, store_kind: str, placement: str, plans: List[List[str]],
             gen: bool, shape_ids: List[int], layouts: List[str],
-            stages: List[int] = [5], fail_classes: List[str] = []) -> str:
+            stages: List[int] = [5], fail_classes: List[str] = [], log_ops: bool = False) -> str:
     return "\n".join([
         "---- MODULE RunConf ----",
         "MaxVer == %d" % max_ver,
@@ -17,4 +17,5 @@ def runconf(max_ver: int, store_kind: str, placement: str, plans: List[List[str]
         "Layouts == %s" % tlax(layouts),
         "StageSet == %s" % tlax(set(stages)),
         "FailClasses == %s" % tlax(set(fail_classes)),
+        "LogOps == %s" % tlax(log_ops),
         "====", ""])
